@@ -29,18 +29,23 @@ PROP = dict(
               "solve(array); the complete 9-entry-point set (operator(), pointer solve, rfft) with the full position set at n in {4099, 8192, 10000, "
               "65537, 65538, 100000, 131072}; fft(x,n')/rfft(x,n') pad a 100- and a 500-sample input to n' in {4099, 65537, 100000}, truncate "
               "131072 / 100000 samples to {4097, 70001}, and n' = n+-1 for every listed n (up to 131073); czt.big: (n,m) in {(5000,7),(7,5000),"
-              "(4097,4097),(70000,3),(3,70000)} x 3 w x a in {1, -1, 0.6+0.8i, -(1+32/n), i/(1+32/n)} x {dense, impulse@n-1} against the double sum",
+              "(4097,4097),(70000,3),(3,70000)} x 3 w x a in {1, -1, 0.6+0.8i, -(1+32/n), i/(1+32/n)} x {dense, impulse@n-1} against the double sum; czt.nearroot: w with angle 2*pi*j/base*(1+d) "
+              "(not a root of unity), base in {n, m}, j in {1, 3, base-1}, d in {+-1e-8, +-1e-10, +-1e-12, +-4eps}, (n,m) in {16,64,100,257,1000}^2 "
+              "diagonal + (16,31),(64,63),(64,65),(100,17),(48,96),(257,300),(1000,999), a in {1,-1,0.6+0.8i,0.5e^0.7i}, oracle = double sum "
+              "with the actual double w",
         thorough="as quick (no light mode: every listed length gets all entry points and positions) with every n in 1..12288, 46 + 45 listed "
                  "lengths above 12288 (adds n around 46341 where n*n overflows int, primes / 2*prime around 65536 and 46349, 100003, 251*521, "
                  "p^4, 29^3..43^3, round composites 15000..128000), all impulses/tones for n <= 256, dense oracle for n <= 2048, czt.def n <= 48, "
                  "czt.big adds n in {64,100,127,128,255,256,257,500,1000,1024,2047,4096,5000} x m in {1,17,n-1,n,n+1,2n} and (8192,8192), "
-                 "(10000,9999), (131072,5), (5,131072), (65537,64), (64,65537), (46341,3)"),
+                 "(10000,9999), (131072,5), (5,131072), (65537,64), (64,65537), (46341,3); czt.nearroot adds (32,32),(128,128),(500,500),(2048,2048),(4096,4096),(1000,2000),(4099,64),(64,4099)"),
     deadline=dict(quick=150, thorough=3000),
     assumptions=COMMON_ASSUME + [
         "real-input vs complex-input agreement and conjugate symmetry are judged at 64*n*eps relative l2 (what two results within 32*n*eps of the "
         "exact DFT imply), not bit equality",
         "czt 'same kind of accuracy' is read weakly: l2 error <= 32*(n2+max(m,n)^2)*eps*sqrt(m)*sum_j|x_j a^-j| with n2 the internal power-of-two "
         "convolution length (never smaller than the literal 32*n*eps*||X||_2); w^(jk) is evaluated as exp(i*j*k*arg(w)) for the double w passed",
+        "czt is only given |w| = 1 to double rounding (the statement's domain); for |w| = 1 + 1e-12 the defining sum contains |w|^(jk) and "
+        "legitimately differs from an angle-only evaluation by j*k*1e-12, so such w are not generated",
         "where the reference transform is exactly zero (impulse removed by truncation) the result must be exactly zero",
     ],
 )
